@@ -13,3 +13,5 @@ mod c04;
 mod c14;
 #[cfg(kani)]
 mod c03;
+#[cfg(kani)]
+mod c06;
